@@ -8,6 +8,8 @@ pub struct Counting;
 /// Bytes requested by all threads since process start (a monitor thread can watch a runaway
 /// computation on another thread through it).
 pub static GLOBAL_TOTAL: std::sync::atomic::AtomicUsize = std::sync::atomic::AtomicUsize::new(0);
+/// Number of allocation requests served to all threads since process start.
+pub static GLOBAL_ALLOCS: std::sync::atomic::AtomicUsize = std::sync::atomic::AtomicUsize::new(0);
 
 thread_local! {
     static LIVE: Cell<isize> = const { Cell::new(0) };
@@ -37,6 +39,7 @@ fn on_alloc(size: usize) {
         }
     });
     GLOBAL_TOTAL.fetch_add(size, std::sync::atomic::Ordering::Relaxed);
+    GLOBAL_ALLOCS.fetch_add(1, std::sync::atomic::Ordering::Relaxed);
     let _ = TOTAL.try_with(|t| t.set(t.get().wrapping_add(size)));
     let _ = ALLOCS.try_with(|t| t.set(t.get().wrapping_add(1)));
 }
